@@ -24,6 +24,15 @@ open Dulwich
 
 
 
+/-- `Except` has no `DecidableEq` in core; needed to `decide` concrete witnesses. -/
+instance instDecidableEqExcept {ε α : Type} [DecidableEq ε] [DecidableEq α] : DecidableEq (Except ε α) :=
+  fun a b =>
+    match a, b with
+    | .ok x, .ok y => if h : x = y then isTrue (by rw [h]) else isFalse (fun e => h (by cases e; rfl))
+    | .error x, .error y => if h : x = y then isTrue (by rw [h]) else isFalse (fun e => h (by cases e; rfl))
+    | .ok _, .error _ => isFalse (fun e => by cases e)
+    | .error _, .ok _ => isFalse (fun e => by cases e)
+
 /-! ## numbers -/
 
 def digitChar (d : Nat) : UInt8 := UInt8.ofNat (48 + d)
